@@ -18,7 +18,7 @@ PROPS = {
     "C09": dict(lean=["GoatSpec.Properties.C09"], streams=["marks-corpus", "marks-stdlib", "marks-gen"], e2e=[], trusted=_INSTR_TRUSTED, assumptions=[]),
     "C06": dict(
         lean=["GoatSpec.Properties.C06"],
-        streams=["text-pass-raw", "text-clean-tokens"],
+        streams=["text-pass-raw", "text-clean-tokens", "text-clean-file"],
         e2e=["track"],
         trusted=["modelled, not verified: Go regexp engine on whole lines (tied by exhaustive small arrangements), go/parser+go/printer re-formatting, astutil import deletion, os file API"],
         assumptions=["A2: go/printer∘go/parser preserves syntax tree and comments", "A3: astutil.DeleteNamedImport only edits import declarations"],
@@ -48,7 +48,7 @@ PROPS = {
                  "abstractions: Go's nil slice and the empty slice are both [] (goat init and the emitted YAML never produce an empty non-nil slice); strconv.Quote is modelled on printable text plus newline, tab, carriage return"],
         assumptions=["A9: yaml.v3 agrees with the line-level loader on the emitted shapes (monitored: real LoadConfig vs model load on every generated and mutated file)"],
     ),
-    "C10": dict(lean=["GoatSpec.Properties.C10"], streams=["text-pass-raw", "text-patch-tokens"], e2e=["patch"],
+    "C10": dict(lean=["GoatSpec.Properties.C10"], streams=["text-pass-raw", "text-patch-tokens", "text-patch-file"], e2e=["patch"],
                 trusted=["modelled, not verified: Go regexp engine on whole lines (tied exhaustively on small arrangements), go/parser+go/printer, astutil import editing, template rendering of the generated file"],
                 assumptions=["A2/A3 as for C02/C06; 'the project still compiles' is an end-to-end oracle (go build), not a theorem"]),
     "C11": dict(lean=["GoatSpec.Properties.C11"], streams=[], e2e=["sequences"],
